@@ -990,7 +990,9 @@ func main() {
 	_ = h1
 	cfgs := []crossCfg{{"length<=1, all 24 requests", 1, all24}, {"length<=2, the 6 requests of height 1 round 0", 2, h1r0}}
 	if !run.Quick() {
-		cfgs = []crossCfg{{"length<=2, all 24 requests", 2, all24}, {"length<=3, the 6 requests of height 1 round 0", 3, h1r0}}
+		// proposal A, prevote A, prevote B, precommit A at (H1,R0): all three step types, one conflicting pair
+		four := []int{h1r0[0], h1r0[2], h1r0[3], h1r0[4]}
+		cfgs = []crossCfg{{"length<=2, all 24 requests", 2, all24}, {"length<=3, proposal A / prevote A / prevote B / precommit A at height 1 round 0", 3, four}}
 	}
 	if fullLen == 0 {
 		cfgs = nil
